@@ -37,7 +37,12 @@ func (s *service) ContactBlock(ctx context.Context, req *protocoltypes.ContactBl
 		return nil, errcode.ErrCode_ErrDeserialization.Wrap(err)
 	}
 
-	if _, err := s.getAccountGroup().MetadataStore().ContactBlock(ctx, pk); err != nil {
+	accountGroup := s.getAccountGroup()
+	if accountGroup == nil {
+		return nil, errcode.ErrCode_ErrGroupMissing
+	}
+
+	if _, err := accountGroup.MetadataStore().ContactBlock(ctx, pk); err != nil {
 		return nil, errcode.ErrCode_ErrOrbitDBAppend.Wrap(err)
 	}
 
@@ -53,7 +58,12 @@ func (s *service) ContactUnblock(ctx context.Context, req *protocoltypes.Contact
 		return nil, errcode.ErrCode_ErrDeserialization.Wrap(err)
 	}
 
-	if _, err := s.getAccountGroup().MetadataStore().ContactUnblock(ctx, pk); err != nil {
+	accountGroup := s.getAccountGroup()
+	if accountGroup == nil {
+		return nil, errcode.ErrCode_ErrGroupMissing
+	}
+
+	if _, err := accountGroup.MetadataStore().ContactUnblock(ctx, pk); err != nil {
 		return nil, errcode.ErrCode_ErrOrbitDBAppend.Wrap(err)
 	}
 
